@@ -30,11 +30,12 @@ VARIABLES tid, l, s
 vars == <<tid, l, s>>
 
 ToSet(q) == {q[k] : k \in 1..Len(q)}
-NoPhase == [k |-> "none", inRecv |-> FALSE, isPurge |-> FALSE, left |-> {}, pairs |-> <<>>, post |-> <<>>, bid |-> 0]
+NoPhase == [k |-> "none", inRecv |-> FALSE, isPurge |-> FALSE, left |-> {}, pairs |-> <<>>, post |-> <<>>, bid |-> 0, lax |-> FALSE]
 
 InitState(t0) ==
   [cache |-> [i \in Ids |-> None], t0 |-> t0, purged |-> t0, lastDid |-> 0, lastProc |-> -100000, lastQU |-> FALSE,
-   lst |-> {}, ph |-> NoPhase, live |-> [b \in Bids |-> {}], bt |-> [b \in Bids |-> {}], exc |-> FALSE, err |-> ""]
+   lst |-> {}, ph |-> NoPhase, live |-> [b \in Bids |-> {}], bt |-> [b \in Bids |-> {}], exc |-> FALSE,
+   loose |-> {}, altc |-> [i \in Ids |-> None], err |-> ""]
 
 Fail(st, clause) == [st EXCEPT !.err = clause]
 
@@ -88,7 +89,7 @@ OnRecv(st0, e) ==
          IN [st EXCEPT !.lastDid = e.did, !.lastProc = e.t, !.lastQU = FALSE, !.cache = mk,
                        !.ph = IF ps = <<>> THEN [NoPhase EXCEPT !.inRecv = TRUE]
                               ELSE [k |-> "upd", inRecv |-> TRUE, isPurge |-> FALSE, left |-> st.lst,
-                                    pairs |-> ps, post |-> po, bid |-> 0]]
+                                    pairs |-> ps, post |-> po, bid |-> 0, lax |-> FALSE]]
 
 (* ------------------------------------------------------------------ listener calls *)
 PairClause(st, e, exp, got) ==
@@ -109,7 +110,7 @@ PairsClause(st, e) ==
                        e.pairs[CHOOSE k \in bad : \A j \in bad : k <= j])
 
 OnUpdInRecv(st, e) ==
-  IF Bad(e.lid \notin st.ph.left, "C06_EachListenerOnce") THEN Fail(st, "C06_EachListenerOnce")
+  IF Bad(e.lid \notin st.ph.left /\ ~st.ph.lax, "C06_EachListenerOnce") THEN Fail(st, "C06_EachListenerOnce")
   ELSE IF PairsClause(st, e) # "" THEN Fail(st, PairsClause(st, e))
   ELSE IF Bad(ToSet(e.view) # View(st.cache), "C06_NotifyBeforeApply") THEN Fail(st, "C06_NotifyBeforeApply")
   ELSE [st EXCEPT !.ph.left = @ \ {e.lid}]
@@ -129,7 +130,7 @@ OnPurgeStart(st, e) ==
      ELSE IF Bad(e.lid \notin st.lst, "C06_EachListenerOnce") THEN Fail(st, "C06_EachListenerOnce")
      ELSE [st EXCEPT !.cache = newCache, !.purged = b,
                      !.ph = [k |-> "upd", inRecv |-> FALSE, isPurge |-> TRUE, left |-> st.lst \ {e.lid},
-                             pairs |-> e.pairs, post |-> newCache, bid |-> 0]]
+                             pairs |-> e.pairs, post |-> newCache, bid |-> 0, lax |-> FALSE]]
 
 OnUpdInPurge(st, e) ==
   IF Bad(e.lid \notin st.ph.left, "C06_EachListenerOnce") THEN Fail(st, "C06_EachListenerOnce")
@@ -140,6 +141,9 @@ OnUpdInPurge(st, e) ==
 (* Apply: the step between the two notification rounds *)
 ToDone(st) ==
   IF st.ph.k # "upd" THEN st
+  \* a listener of the harness raised in the first round (on a datagram of refreshes only): who else is still called is the
+  \* library's business, the cache effects are not
+  ELSE IF st.ph.lax THEN [st EXCEPT !.cache = st.ph.post, !.altc = st.cache, !.ph.k = "done", !.ph.left = st.lst]
   ELSE IF Bad(st.ph.left # {}, "C06_EachListenerOnce") THEN Fail(st, "C06_EachListenerOnce")
   ELSE [st EXCEPT !.cache = st.ph.post, !.ph.k = "done", !.ph.left = st.lst]
 
@@ -147,7 +151,7 @@ OnDone(st0, e) ==
   LET st == ToDone(st0) IN
   IF st.err # "" THEN st
   ELSE IF Bad(st.ph.k # "done", "C06_NoCallWithoutUpdate") THEN Fail(st, "C06_NoCallWithoutUpdate")
-  ELSE IF Bad(e.lid \notin st.ph.left, "C06_EachListenerOnce") THEN Fail(st, "C06_EachListenerOnce")
+  ELSE IF Bad(e.lid \notin st.ph.left /\ ~st.ph.lax, "C06_EachListenerOnce") THEN Fail(st, "C06_EachListenerOnce")
   ELSE IF Bad(ToSet(e.view) # View(st.cache), "C06_CompleteAfterApply") THEN Fail(st, "C06_CompleteAfterApply")
   ELSE [st EXCEPT !.ph.left = @ \ {e.lid}]
 
@@ -213,8 +217,18 @@ SnapClause(st, p) ==
      ELSE IF Bad(ToSet(p.names) # {Vocab[i].nb : i \in pres}, "C05_PathNames") THEN "C05_PathNames"
      ELSE LiveClause(st)
 
-OnSnap(st0, e) ==
-  LET st == CheckSilent(ClosePurge(st0), e.t) IN
+Resolve(st, p) ==
+  IF st.loose = {} THEN st
+  ELSE LET obs == ToSet(p.rec)
+           pick(i) == IF (st.cache[i] = None /\ ~\E x \in obs : x[1] = i) \/ (st.cache[i] # None /\ <<i, st.cache[i].c, st.cache[i].ttl>> \in obs)
+                      THEN st.cache[i]
+                      ELSE IF (st.altc[i] = None /\ ~\E x \in obs : x[1] = i) \/ (st.altc[i] # None /\ <<i, st.altc[i].c, st.altc[i].ttl>> \in obs)
+                      THEN st.altc[i] ELSE st.cache[i]
+       IN [st EXCEPT !.cache = [i \in Ids |-> IF i \in st.loose THEN pick(i) ELSE st.cache[i]], !.loose = {}]
+
+OnSnap(st00, e) ==
+  LET st0 == Resolve(st00, e.paths)
+      st == CheckSilent(ClosePurge(st0), e.t) IN
   IF st.err # "" THEN st
   ELSE IF Bad(st.ph.k # "none", "Trace_Malformed") THEN Fail(st, "Trace_Malformed")
   ELSE IF SnapClause(st, e.paths) # "" THEN Fail(st, SnapClause(st, e.paths)) ELSE st
@@ -222,7 +236,7 @@ OnSnap(st0, e) ==
 OnRecvDone(st0, e) ==
   LET st == ToDone(st0) IN
   IF st.err # "" THEN st
-  ELSE IF Bad(st.ph.k = "done" /\ st.ph.left # {}, "C06_EachListenerOnce") THEN Fail(st, "C06_EachListenerOnce")
+  ELSE IF Bad(st.ph.k = "done" /\ st.ph.left # {} /\ ~st.ph.lax, "C06_EachListenerOnce") THEN Fail(st, "C06_EachListenerOnce")
   ELSE [st EXCEPT !.ph = NoPhase]
 
 OnEnd(st0, e) ==
@@ -242,6 +256,11 @@ Step(st, e) ==
     [] e.ev = "snap"        -> OnSnap(st, e)
     \* an exception that escaped the library: C15's business.  The family checks go on judging their own clauses on what
     \* follows (the rest of that datagram was not processed, which the snapshots and callbacks will show)
+    \* the records of the datagram that was broken off are cached as received, or left as they were when the listener raised:
+    \* the snapshot that follows says which (Resolve)
+    [] e.ev = "uexc"        -> IF st.ph.k = "upd" /\ ~st.ph.isPurge
+                               THEN [st EXCEPT !.ph.lax = TRUE, !.loose = {st.ph.pairs[k].n : k \in 1..Len(st.ph.pairs)}]
+                               ELSE Fail(st, "Trace_Malformed")
     [] e.ev = "exc"         -> IF D.own = "ALL" THEN Fail(st, "C15_NoException") ELSE [st EXCEPT !.exc = TRUE]
     [] e.ev = "end"         -> OnEnd(st, e)
     [] OTHER                -> Fail(st, "Trace_Malformed")
